@@ -18,10 +18,19 @@
 (***************************************************************************)
 EXTENDS Naturals, Sequences, FiniteSets
 
-Dead == [dead |-> TRUE, s |-> {}]
-Live(s) == [dead |-> FALSE, s |-> s]
-Meet(a, b) == IF a.dead THEN b ELSE IF b.dead THEN a ELSE Live(a.s \cap b.s)
-AddV(st, v) == IF st.dead THEN st ELSE Live(st.s \cup {v})
+Dead == [dead |-> TRUE, s |-> {}, g |-> FALSE]
+Live(s) == [dead |-> FALSE, s |-> s, g |-> FALSE]
+\* g ("ghost", only in the nt reading below): the point directly after a Return/Approve/Reject/Err.  PyTeal's analysis
+\* stops at a block that ends in such an instruction, but its block normalisation first merges a block into its only
+\* predecessor: code that follows the terminator in a straight line is analysed as if reachable, code behind a join
+\* that has another incoming edge is not.  Hence: a ghost entering the next construct is live (Unghost); at a join a
+\* ghost edge does not count when there is a live one, two ghost edges make the join unreachable, and a ghost edge
+\* that is the only one left (the other arms left by Break/Continue) stays a ghost.
+Ghost(st) == IF st.dead THEN st ELSE [st EXCEPT !.g = TRUE]
+Unghost(st) == IF st.dead THEN st ELSE [st EXCEPT !.g = FALSE]
+Meet(a, b) == IF a.dead THEN b ELSE IF b.dead THEN a
+              ELSE IF a.g /\ b.g THEN Dead ELSE IF a.g THEN b ELSE IF b.g THEN a ELSE Live(a.s \cap b.s)
+AddV(st, v) == IF st.dead THEN st ELSE [st EXCEPT !.s = st.s \cup {v}]
 
 FR(out, brk, cont, bad) == [out |-> out, brk |-> brk, cont |-> cont, bad |-> bad]
 
@@ -44,9 +53,10 @@ FlowCond(a, i, st, L, acc, nt) ==
                    FR(Meet(acc.out, b.out), Meet(acc.brk, Meet(c.brk, b.brk)), Meet(acc.cont, Meet(c.cont, b.cont)),
                       acc.bad \cup c.bad \cup b.bad), nt)
 
-FlowG(node, st, L, nt) ==
+FlowG(node, st0, L, nt) ==
   LET k == node.k
       a == node.a
+      st == Unghost(st0)
   IN
   CASE k = "Load" ->
          FR(st, Dead, Dead, IF node.i[1] \in L /\ ~st.dead /\ node.i[1] \notin st.s THEN {node.i[1]} ELSE {})
@@ -54,9 +64,9 @@ FlowG(node, st, L, nt) ==
          LET r == FlowG(a[1], st, L, nt) IN FR(AddV(r.out, node.i[1]), r.brk, r.cont, r.bad)
     [] k = "Break" -> FR(Dead, st, Dead, {})
     [] k = "Continue" -> FR(Dead, Dead, st, {})
-    [] k \in {"Approve", "Reject", "Err"} -> FR(IF nt THEN st ELSE Dead, Dead, Dead, {})
+    [] k \in {"Approve", "Reject", "Err"} -> FR(IF nt THEN Ghost(st) ELSE Dead, Dead, Dead, {})
     [] k = "Return" ->
-         LET r == FlowSeq(a, 1, st, L, Empty, nt) IN FR(IF nt THEN (IF a = <<>> THEN st ELSE r.out) ELSE Dead, r.brk, r.cont, r.bad)
+         LET r == FlowSeq(a, 1, st, L, Empty, nt) IN FR(IF nt THEN Ghost(IF a = <<>> THEN st ELSE r.out) ELSE Dead, r.brk, r.cont, r.bad)
     [] k = "If" ->
          LET c == FlowG(a[1], st, L, nt)
              t == FlowG(a[2], c.out, L, nt)
@@ -77,9 +87,9 @@ FlowG(node, st, L, nt) ==
     [] OTHER -> FlowSeq(a, 1, st, L, Empty, nt)      \* operands / statements in written order
 
 \* nt = FALSE: Return/Approve/Reject/Err end a path (the definition the property uses).
-\* nt = TRUE: they do not - code that textually follows a terminator counts as reachable.  PyTeal's own analysis treats code
-\* that was merged into one block with a preceding terminator that way, so the acceptance claim of C20 is only made for
-\* programs that are initialised under both readings (conservative; never used to demand a rejection).
+\* nt = TRUE: PyTeal's reading, in which code that follows a terminator in a straight line counts as reachable (ghost states
+\* above).  The acceptance claim of C20 is only made for programs that are initialised under both readings (conservative;
+\* never used to demand a rejection).
 Flow(node, st, L) == FlowG(node, st, L, FALSE)
 
 \* ---- which variables are local to which routine ------------------------------------------
